@@ -91,8 +91,12 @@ Fixpoint codes_from (k : nat) (cs : list icase) : list (nat * Z) :=
 Definition codes := codes_from 0.
 
 (* ------------------------------------------------------------------------------------------------ *)
-(* the block reader: the model, run with the capacities the harness replayed, must deliver exactly the observed blocks
-   (bytes and final buffer capacity) and end the same way.  0 = same, 1 = different *)
+(* the block reader.  What the theorems need of it is the cutting discipline proved of the model
+   (C06_blocks_cut_only_at_newlines): the delivered blocks, joined by newlines, are a prefix of the stream that ends at
+   a newline, or - only at a regular end - the whole stream.  That is checked on every observed run (code 1 when
+   violated).  Beyond it the model is run with the capacities the harness replayed and must deliver exactly the observed
+   blocks (bytes and final buffer capacity) and end the same way; a difference there alone (code 2) says that the
+   cutting strategy of the code is no longer the modelled one, not that anything is lost. *)
 Definition scase := (Z * Z * list (list Z) * bytes * list (bytes * Z) * bool)%type.   (* end (0 EOF, 1 error), max-line-size, schedule, stream, blocks, clean end *)
 
 Fixpoint blocks_eq (a : list (bytes * nat)) (b : list (bytes * Z)) : bool :=
@@ -102,11 +106,45 @@ Fixpoint blocks_eq (a : list (bytes * nat)) (b : list (bytes * Z)) : bool :=
   | _, _ => false
   end.
 
+Fixpoint is_prefix (a s : bytes) : option bytes :=      (* Some rest when s = a ++ rest *)
+  match a, s with
+  | [], _ => Some s
+  | x :: a', y :: s' => if (x =? y)%N then is_prefix a' s' else None
+  | _ :: _, [] => None
+  end.
+
+(* every block is followed by a newline in the stream; returns what is left of the stream *)
+Fixpoint strip_blocks (blocks : list bytes) (s : bytes) : option bytes :=
+  match blocks with
+  | [] => Some s
+  | b :: r => match is_prefix b s with
+              | Some (c :: s') => if (c =? c_nl)%N then strip_blocks r s' else None
+              | _ => None
+              end
+  end.
+
+(* all but the last block are followed by a newline, the last one is the rest of the stream (non-empty) *)
+Fixpoint strip_blocks_last (blocks : list bytes) (s : bytes) : bool :=
+  match blocks with
+  | [] => match s with [] => true | _ => false end
+  | [b] => match b with [] => false | _ => list_beq b s end
+  | b :: r => match is_prefix b s with
+              | Some (c :: s') => (c =? c_nl)%N && strip_blocks_last r s'
+              | _ => false
+              end
+  end.
+
+Definition valid_cut (e : Z) (body : bytes) (blocks : list bytes) (ok : bool) : bool :=
+  if ok then (e =? 0) && (strip_blocks_last blocks body || match strip_blocks blocks body with Some [] => true | _ => false end)
+  else match strip_blocks blocks body with Some _ => true | None => false end.
+
 Definition check_stream (sc : scase) : Z :=
   let '(e, maxline, sched, body, blocks, ok) := sc in
-  let '(bl, ok') := read_blocks (if e =? 0 then EndEOF else EndErr) (Z.to_nat maxline)
-                                (map (fun ch => (map Z.to_nat ch, false)) sched) [] body in
-  if Bool.eqb ok ok' && blocks_eq bl blocks then 0 else 1.
+  if negb (valid_cut e body (map fst blocks) ok) then 1
+  else
+    let '(bl, ok') := read_blocks (if e =? 0 then EndEOF else EndErr) (Z.to_nat maxline)
+                                  (map (fun ch => (map Z.to_nat ch, false)) sched) [] body in
+    if Bool.eqb ok ok' && blocks_eq bl blocks then 0 else 2.
 
 Fixpoint scodes_from (k : nat) (cs : list scase) : list (nat * Z) :=
   match cs with
@@ -116,10 +154,11 @@ Fixpoint scodes_from (k : nat) (cs : list scase) : list (nat * Z) :=
 Definition scodes := scodes_from 0.
 
 (* ------------------------------------------------------------------------------------------------ *)
-(* the write endpoint: status and stored rows against serve_write (by C06_acceptable_body_acknowledged and
-   C06_acknowledged_write_stores_every_line the answer does not depend on the schedule: acknowledged iff within the limits
-   and acceptable as one block, with exactly those rows; by C06_write_stores_whole_lines_only a refused request leaves
-   rows of complete lines only, in order) *)
+(* the write endpoint: what the statement demands of an answer, against the model.  Acknowledged: the stored rows are
+   exactly the rows of accepting the whole body as one block (C06_acknowledged_write_stores_every_line; that the answer
+   does not depend on the cutting is C06_acceptable_body_acknowledged).  Refused: the stored rows are rows of complete
+   lines of the body, in order (C06_write_stores_whole_lines_only).  Whether a body beyond max-body-size is refused is
+   not part of the statement and not compared (the harness counts it). *)
 Definition hcase := (Z * option Z * option Z * bool * bytes * bool * list irow)%type.   (* factor, max-body-size, Content-Length, gzip, decoded body, acknowledged, stored rows by time *)
 
 Definition line_stored (c : cfg) (mult : Z) (l : bytes) : list row :=
@@ -140,14 +179,12 @@ Fixpoint subseq_rows (rows : list row) (irows : list irow) {struct rows} : bool 
 
 Definition cmp_hcase (c : cfg) (hc : hcase) : Z :=
   let '(mult, limit, declared, gz, body, ack, irows) := hc in
-  let toobig := match limit, declared with Some n, Some d => n <? d | _, _ => false end in
-  let over := match limit with Some n => negb gz && (n <? Z.of_nat (length body)) | None => false end in
-  let expect := if toobig || over then Err else accept_block dec2f_exact c mult body in
-  match expect, ack with
-  | Ok rows, true => cmp_list cmp_row rows irows
-  | Err, false => if subseq_rows (flat_map (line_stored c mult) (split_lines body)) irows then 0 else 2
-  | _, _ => 2
-  end.
+  if ack then
+    match accept_block dec2f_exact c mult body with
+    | Ok rows => cmp_list cmp_row rows irows
+    | Err => 2
+    end
+  else if subseq_rows (flat_map (line_stored c mult) (split_lines body)) irows then 0 else 2.
 
 Fixpoint first_hmask (want : Z) (ms : list Z) (hc : hcase) : option Z :=
   match ms with
